@@ -161,6 +161,11 @@ def c01_family():
         out.append(dict(mod="gen::c01g", name=f"dec_kat_{rate}_{k}_{r}_o{om}_r{rm}", unwind=66, stub=(rate == "low"),
                         body=f"crate::c01::dec_kat::<{ty}, {k}, {r}>({om}, {rm}, &crate::gen::gmat::KAT_IN_{rate.upper()}_{k}_{r}, &crate::gen::gmat::KAT_OUT_{rate.upper()}_{k}_{r})",
                         kind="dec_kat", rate=rate, k=k, r=r, om=om, rm=rm))
+    for rate, k, r, om, rm in (("high", 2, 1, 0b10, 0b1), ("low", 1, 2, 0b0, 0b10), ("high", 2, 2, 0b00, 0b11), ("low", 2, 2, 0b00, 0b11),
+                               ("high", 3, 2, 0b100, 0b11), ("low", 2, 3, 0b00, 0b101), ("high", 3, 2, 0b011, 0b10)):
+        out.append(dict(mod="gen::c01g", name=f"dec_additive_{rate}_{k}_{r}_o{om}_r{rm}", unwind=66, stub=(rate == "low"),
+                        body=f"crate::c01::dec_additive::<{DEC_TY[rate]}<SpecEngine>, {k}, {r}>({om}, {rm}, &crate::gen::gmat::G_{rate.upper()}_{k}_{r})",
+                        kind="dec_additive", rate=rate, k=k, r=r, om=om, rm=rm))
     return out
 
 
@@ -170,10 +175,16 @@ def c12_family():
     for rate, k, r in (("high", 2, 2), ("low", 2, 2), ("high", 3, 1), ("low", 1, 3), ("high", 3, 2), ("low", 2, 3)):
         out.append(dict(mod="gen::c12g", name=f"enc_result_{rate}_{k}_{r}", unwind=66,
                         body=f"crate::c12::enc_result::<{ENC_TY[rate]}<N>>({k}, {r})", kind="enc_result", rate=rate, k=k, r=r))
-    for rate, k, r in (("high", 2, 2), ("low", 2, 2), ("high", 3, 2), ("low", 2, 3)):
+    # (3,3): the first region's count is not a power of two, so there is a GAP between the two shard
+    # regions of the working space and shard positions reach beyond original_count + recovery_count
+    for rate, k, r in (("high", 2, 2), ("low", 2, 2), ("high", 3, 2), ("low", 2, 3), ("high", 3, 3), ("low", 3, 3)):
         for om in range(1 << k):
             for rm in range(1 << r):
                 if popcount(om) + popcount(rm) < k:
+                    continue
+                # (3,3): exactly 3 shards, including the LAST shard of the second region (high: original 2,
+                # low: recovery 2), whose work position is >= original_count + recovery_count
+                if k + r == 6 and not (popcount(om) + popcount(rm) == 3 and ((om if rate == "high" else rm) >> 2 & 1)):
                     continue
                 complete = om == (1 << k) - 1
                 out.append(dict(mod="gen::c12g", name=f"dec_result_{rate}_{k}_{r}_o{om}_r{rm}", unwind=66, stub=(rate == "low" and not complete),
@@ -381,6 +392,15 @@ def c15_family():
                 out.append(dict(mod="gen::c15g", name=f"miter_{eng}_{op}_{size}_{trunc}_{delta}", unwind=128, macro=mac,
                                 body=f"crate::c15::prim_miter::<{T}>({isf}, {size}, {trunc}, {delta})",
                                 kind="miter", engine=eng, op=op, size=size, trunc=trunc, delta=delta))
+    # larger transforms in the affordable one-lane form (about 5 min each): odd and even layer counts,
+    # small truncated sizes (the last partially filled chunk of a high-rate encoder), chunk-aligned offsets
+    for op, size, trunc, delta in (("ifft", 32, 5, 32), ("ifft", 32, 12, 0), ("ifft", 32, 17, 32), ("fft", 32, 20, 0), ("fft", 32, 7, 32),
+                                   ("ifft", 16, 3, 16), ("ifft", 16, 9, 0), ("fft", 16, 5, 16), ("fft", 16, 16, 0)):
+        isf = "true" if op == "fft" else "false"
+        for p in sorted({0, (size if op == "fft" else trunc) - 1}):
+            out.append(dict(mod="gen::c15g", name=f"basis_lane_nosimd_{op}_{size}_{trunc}_{delta}_p{p}", unwind=128, macro="h",
+                            body=f"crate::c15::prim_basis_lane::<NoSimd>({isf}, {size}, {trunc}, {delta}, {p}, 3)",
+                            kind="basis_lane", engine="nosimd", op=op, size=size, trunc=trunc, delta=delta, p=p))
     for eng in ("nosimd", "ssse3", "avx2", "neon"):
         T, mac = ENGINES[eng]
         for op, size, trunc, delta in (("fft", 4, 3, 4), ("ifft", 4, 2, 8), ("fft", 8, 5, 0), ("ifft", 8, 8, 8)):
@@ -404,7 +424,8 @@ def c15_family():
 def c05_family():
     out = []
     S = "SpecEngine"
-    enc_b = [("high", 3, 2), ("low", 2, 3), ("high", 5, 2), ("low", 1, 3)]
+    # (3,3), (5,5): recovery_count <= original_count < chunk, i.e. the first chunk has padding that must be zeroed
+    enc_b = [("high", 3, 2), ("low", 2, 3), ("high", 5, 2), ("low", 1, 3), ("high", 3, 3), ("high", 5, 5), ("low", 3, 3)]
     a_cfgs = {"high": [("high", 5, 3, 66), ("high", 2, 1, 2), ("low", 2, 3, 130), ("low", 3, 5, 2)],
               "low": [("low", 3, 5, 66), ("low", 1, 2, 2), ("high", 3, 2, 130), ("high", 5, 3, 2)]}
     for rate, k, r in enc_b:
@@ -421,7 +442,9 @@ def c05_family():
                             kind="enc_rdr", rate=rate, k=k, r=r, p=p))
     dec_b = [("high", 3, 2, 0b100, 0b11, 0b001, 0b11), ("low", 2, 3, 0b00, 0b101, 0b01, 0b100), ("high", 2, 2, 0b00, 0b11, 0b10, 0b01),
              # patterns with a MISSING recovery shard (its stale slot must be zeroed by decode)
-             ("high", 3, 2, 0b011, 0b10, 0b001, 0b11), ("high", 2, 2, 0b01, 0b10, 0b00, 0b11), ("low", 2, 3, 0b01, 0b010, 0b00, 0b101)]
+             ("high", 3, 2, 0b011, 0b10, 0b001, 0b11), ("high", 2, 2, 0b01, 0b10, 0b00, 0b11), ("low", 2, 3, 0b01, 0b010, 0b00, 0b101),
+             # gap configurations: round 1 uses the LAST shard of the second region (beyond original_count + recovery_count)
+             ("low", 3, 3, 0b011, 0b001, 0b010, 0b110), ("high", 3, 3, 0b011, 0b001, 0b110, 0b100)]
     for rate, k, r, om, rm, om1, rm1 in dec_b:
         G = f"&crate::gen::gmat::G_{rate.upper()}_{k}_{r}"
         for ar, ak, arr, asb in a_cfgs[rate]:
@@ -479,7 +502,8 @@ def c04_family():
                                     kind="enc_slot", rate=rate, k=k, r=r, sb=sb, q=q, p=p))
     for rate, k, r, om, rm in (("high", 2, 1, 0b10, 0b1), ("low", 1, 2, 0b0, 0b10), ("high", 3, 2, 0b100, 0b11), ("low", 2, 3, 0b00, 0b101)):
         G = f"&crate::gen::gmat::G_{rate.upper()}_{k}_{r}"
-        for sb in (4, 30, 64, 66):
+        # (3,2)/(2,3) with 64/66-byte shards (32+ live lanes through a size-8 decode) run out of memory at 12 GB
+        for sb in ((4, 30, 64, 66) if k + r == 3 else (4, 30)):
             nsym = sb // 2
             for q in sorted({0, nsym - 1}):
                 out.append(dict(mod="gen::c04g", name=f"dec_slot_{rate}_{k}_{r}_sb{sb}_q{q}", unwind=140, stub=(rate == "low"),
